@@ -87,6 +87,18 @@ def gen_sdk():
     same_inverse = canon(sbody, True) == canon(pbody, False)
     # other shared constants
     ctxt = strip_comments(sread("constants/pool.rs")) if os.path.exists(os.path.join(SDK, "constants/pool.rs")) else ""
+    # the constants the SDK's swap quote shares with the program (rust-sdk/core/src/constants/*.rs)
+    shared = []
+    for rel2, names in (("constants/swap.rs", ["FEE_RATE_DENOMINATOR", "MIN_SQRT_PRICE", "MAX_SQRT_PRICE"]),
+                        ("constants/tick.rs", ["TICK_ARRAY_SIZE", "MIN_TICK_INDEX", "MAX_TICK_INDEX", "FULL_RANGE_ONLY_TICK_SPACING_THRESHOLD"]),
+                        ("constants/adaptive_fee.rs", ["FEE_RATE_HARD_LIMIT", "MAX_REFERENCE_AGE", "VOLATILITY_ACCUMULATOR_SCALE_FACTOR",
+                                                        "REDUCTION_FACTOR_DENOMINATOR", "ADAPTIVE_FEE_CONTROL_FACTOR_DENOMINATOR"])):
+        t2 = strip_comments(sread(rel2))
+        for n in names:
+            m = re.search(r"const %s: \w+ = (-?[0-9_]+)(?:i128|u128|u32|i32|u64|u16|usize)?;" % n, t2)
+            if not m:
+                raise ExtractError(f"{rel2}: SDK constant {n} not found")
+            shared.append((n, int(m.group(1).replace("_", ""))))
     out = "namespace WP.Gen\n\n"
     out += "/-- the SDK's tick-to-price ladders: [odd, even, rung 2, 4, ..., 262144] -/\n"
     out += "def sdkPosLadder : List Nat := [" + ", ".join(map(str, pos)) + "]\n"
@@ -95,6 +107,8 @@ def gen_sdk():
     out += "def progInverseConsts : List (String × Int) := [" + ", ".join(f'("{n}", {v})' for n, v in prog_inv) + "]\n"
     out += f"/-- the statement sequences of sqrt_price_to_tick_index (SDK) and tick_index_from_sqrt_price (program) are identical up to the SDK's U128 wrappers -/\n"
     out += f"def sdkInverseSameText : Bool := {'true' if same_inverse else 'false'}\n"
+    out += "/-- constants of the SDK (rust-sdk/core/src/constants) that its swap quote shares with the program -/\n"
+    out += "def sdkSharedConsts : List (String × Int) := [" + ", ".join(f'("{n}", {v})' for n, v in shared) + "]\n"
     out += "\nend WP.Gen\n"
     return write_if_changed("SdkConsts.lean", out)
 
